@@ -78,7 +78,19 @@ def c07Packed : Handler := fun c => do
         let x := (pa.getD n []).toArray
         Spec.seqScore V none (fun t v => (x.getD t []).getD v 0)
           ((hypA.getD n []).take (lens.getD n 0))))
-  pure (objJ [("model", optJ ratsJ model), ("spec", ratsJ spec)])
+  -- the hypotheses of C07_packed, evaluated on this case
+  let hbs := batchSizesOfLens (lensOfBatchSizes N bs) == bs
+  let layout ← match fieldOpt c "padded" with
+    | none => pure true
+    | some p => do
+      let padded ← jsonToList (jsonToList (jsonToList jsonToRat)) p
+      let pa := padded.toArray
+      pure ((List.range bs.length).all (fun t =>
+        (List.range (bs.getD t 0)).all (fun i =>
+          rowsA.getD ((bs.take t).foldl (· + ·) 0 + i) []
+            == ((pa.getD (sortIdx sidx i) []).getD t []))))
+  pure (objJ [("model", optJ ratsJ model), ("spec", ratsJ spec),
+    ("flags", objJ [("hbs", boolJ hbs), ("layout", boolJ layout)])])
 
 def columnOf (rows : List (List Nat)) (n : Nat) : List Nat := rows.map (fun r => r.getD n 0)
 
